@@ -9,7 +9,6 @@ import (
 	"path/filepath"
 	"strings"
 
-	"github.com/JunNishimura/Goit/internal/file"
 	"github.com/spf13/cobra"
 )
 
@@ -55,32 +54,15 @@ var rmCmd = &cobra.Command{
 
 		// remove file from working tree and index
 		for _, arg := range args {
-			// if the arg is directory
-			if f, err := os.Stat(arg); !os.IsNotExist(err) && f.IsDir() {
-				// get file paths under directory
-				absPath, err := filepath.Abs(arg)
-				if err != nil {
-					return fmt.Errorf("fail to convert %s to abs path: %w", arg, err)
-				}
-				filePaths, err := file.GetFilePathsUnderDirectory(absPath)
-				if err != nil {
-					return fmt.Errorf("fail to get file paths under directory: %w", err)
-				}
+			cleanedArg := filepath.Clean(arg)
+			cleanedArg = strings.ReplaceAll(cleanedArg, `\`, "/")
 
-				// filePaths are defined as abs paths
-				// so, translate them to rel paths
+			// if the arg is a tracked directory, remove the tracked files beneath it
+			// (and only those: untracked files in the directory are left alone)
+			if client.Idx.IsRegisteredAsDirectory(cleanedArg) {
 				var relPaths []string
-				curPath, err := os.Getwd()
-				if err != nil {
-					return fmt.Errorf("fail to get current directory: %w", err)
-				}
-				for _, filePath := range filePaths {
-					relPath, err := filepath.Rel(curPath, filePath)
-					if err != nil {
-						return fmt.Errorf("fail to get relative path: %w", err)
-					}
-					cleanedRelPath := strings.ReplaceAll(relPath, `\`, "/")
-					relPaths = append(relPaths, cleanedRelPath)
+				for _, entry := range client.Idx.GetEntriesByDirectory(cleanedArg) {
+					relPaths = append(relPaths, string(entry.Path))
 				}
 
 				// remove
@@ -96,9 +78,6 @@ var rmCmd = &cobra.Command{
 					}
 				}
 			} else {
-				cleanedArg := filepath.Clean(arg)
-				cleanedArg = strings.ReplaceAll(cleanedArg, `\`, "/")
-
 				// remove from the working tree
 				if err := removeFromWorkingTree(cleanedArg); err != nil {
 					return err
